@@ -691,8 +691,9 @@ func (db *RockDB) zRemAll(ts int64, key []byte, wb engine.WriteBatch) (int64, er
 		return 0, nil
 	}
 	db.topLargeCollKeys.Update(key, int(0))
-	if db.cfg.ExpirationPolicy == common.WaitCompact {
-		// for compact ttl , we can just delete the meta
+	if db.cfg.ExpirationPolicy == common.WaitCompact && keyInfo.OldHeader.ValueVersion < ts {
+		// for compact ttl , we can just delete the meta (unless a zset re-created by an entry with this
+		// same timestamp would get the same generation number: then the members go physically)
 		sk := zEncodeSizeKey(key)
 		wb.Delete(sk)
 		if num > 0 {
